@@ -114,6 +114,15 @@ theorem C09_site_matmul (elems n dim ld ud f : Nat) (l r : Bool) :
 theorem C09_every_recording_call_reserved :
     recordingCalls.all (fun c => decide (c.2.2.2 ≠ RecKind.unreserved)) = true := by decide
 
+/-- CENSUS of the node traits.  Every reservation `check_space(E::n_active · size)` derives from the compile-time trait
+    `n_active` of the expression type.  The table (REGENERATED from include/adept/*.h by translate/reserve.py on every run) lists,
+    for every class that defines the traits, the operand types named in `n_active`, `n_arrays` and `n_scratch`: no class is
+    broken — every inner node sums `n_active` over exactly the operand types whose `n_arrays` it sums, so an operand whose
+    operations are pushed is an operand whose operations were reserved. -/
+theorem C09_node_traits_consistent :
+    traitNodes.all (fun n => decide (n.2.2.2.2 ≠ TraitKind.broken)) = true ∧
+    traitNodes.all (fun n => decide (n.2.2.2.2 = TraitKind.sumConsistent → n.2.1 = n.2.2.1)) = true := by decide
+
 /-- active array ← active scalar -/
 theorem C09_site_array_from_scalar (size f : Nat) :
     disciplined f (siteArrayFromScalarArray size) = true ∧ disciplined f (siteArrayFromScalarFixed size) = true :=
